@@ -22,10 +22,12 @@ import warnings
 from common import bits
 
 PRESET_POLY = ("linear", "quadratic", "polynomial")
-FORMS = ("lists", "arrays", "marrays", "xyds", "xyds.fit", "kwargs", "enum", "xyds.marrays", "derived")
+FORMS = ("lists", "arrays", "marrays", "xyds", "xyds.fit", "kwargs", "enum", "xyds.marrays", "derived",
+         "plot.fit")
 # xyds.marrays: XYDataSet built from two MeasurementArrays that carry the uncertainties themselves
 # (no xerr=/yerr= keyword); derived: y is an array of DerivedValues (a MeasurementArray + 0, or half
-# the values times 2 -- both exact in binary floating point)
+# the values times 2 -- both exact in binary floating point); plot.fit: the data are put on a Plot
+# (qexpy.plotting.plot(x, y, xerr=, yerr=)) and fitted with Plot.fit(model, ...)
 
 
 def _c(v):
@@ -50,6 +52,54 @@ CUSTOM = {
                 "ref": lambda x, a, b: a / (1 + b * x ** 2)},
 }
 
+CUSTOM["decay"] = {"m": 2, "py": lambda q: (lambda x, a, b: a * q.exp(-(b * x))),
+                   "nodes": [["var", 0], ["var", 1], ["var", 2], ["bin", "mul", 1, 2], ["un", "neg", 3],
+                             ["un", "exp", 4], ["bin", "mul", 0, 5]], "root": 6,
+                   "ref": lambda x, a, b: a * math.exp(-(b * x))}
+# a peak whose POSITION is a parameter (as for the Gaussian): a / (1 + ((x - m)/w)^2)
+CUSTOM["lpeak"] = {"m": 3, "py": lambda q: (lambda x, a, m, w: a / (1 + ((x - m) / w) ** 2)),
+                   "nodes": [["var", 0], ["var", 1], ["var", 2], ["var", 3], ["bin", "sub", 3, 1],
+                             ["bin", "div", 4, 2], _c(2.0), ["bin", "pow", 5, 6], _c(1.0),
+                             ["bin", "add", 8, 7], ["bin", "div", 0, 9]], "root": 10,
+                   "ref": lambda x, a, m, w: a / (1 + ((x - m) / w) ** 2)}
+
+
+def custom_spec(case_or_model, case=None):
+    """the user model of a case.  `custom:<name>` is an entry of CUSTOM; `custom:o<name>` is the
+    same formula in the variable (x - x0) with the constant x0 = case["x0"] written into the
+    callable (a user who measures from an epoch: abscissae with a large offset, parameters of
+    order one)"""
+    if isinstance(case_or_model, dict):
+        case = case_or_model
+        model = case["model"]
+    else:
+        model = case_or_model
+    name = model[7:]
+    if name in CUSTOM:
+        return CUSTOM[name]
+    if not (name.startswith("o") and name[1:] in CUSTOM and case is not None and "x0" in case):
+        raise KeyError(model)
+    base = CUSTOM[name[1:]]
+    x0 = float(case["x0"])
+    m = base["m"]
+
+    def shift(n):
+        if n[0] == "var" and n[1] == m:
+            return ["bin", "sub", 0, 1]
+        if n[0] in ("var", "const"):
+            return list(n)
+        return list(n[:2]) + [k + 2 for k in n[2:]]
+    nodes = [["var", m], _c(x0)] + [shift(n) for n in base["nodes"]]
+
+    def py(q):
+        f = base["py"](q)
+        if m == 2:
+            return lambda x, a, b: f(x - x0, a, b)
+        return lambda x, a, b, c: f(x - x0, a, b, c)
+    return {"m": m, "py": py, "nodes": nodes, "root": base["root"] + 2,
+            "ref": lambda x, *p: base["ref"](x - x0, *p)}
+
+
 # closed forms of the pre-set models, written from the documentation (independent oracle for the
 # failing-input search: highest power first for polynomials)
 REF = {
@@ -62,9 +112,11 @@ REF = {
 }
 
 
-def ref_fn(model):
+def ref_fn(model, case=None):
+    if isinstance(model, dict):
+        model, case = model["model"], model
     if model.startswith("custom:"):
-        return CUSTOM[model[7:]]["ref"]
+        return custom_spec(model, case)["ref"]
     return REF[model]
 
 
@@ -73,7 +125,7 @@ def n_params(case):
     if m in PRESET_POLY:
         return case["degree"] + 1
     if m.startswith("custom:"):
-        return CUSTOM[m[7:]]["m"]
+        return custom_spec(case)["m"]
     return {"exponential": 2, "gaussian": 3}[m]
 
 
@@ -132,7 +184,7 @@ def as_list(e, n):
 
 
 def gen_case(rng, family=None, noise_free=None, form=None, want_range=None, degree=None,
-             sx=None, sy=None, units=None):
+             sx=None, sy=None, units=None, guess=None):
     family = family or rng.choice(["linear", "quadratic", "polynomial", "polynomial", "exponential",
                                    "gaussian", "custom:sine", "custom:growth", "custom:lorentz"])
     case = {"model": family, "form": form or rng.choice(FORMS)}
@@ -153,6 +205,19 @@ def gen_case(rng, family=None, noise_free=None, form=None, want_range=None, degr
         skind = sy or rng.choice(["none", "common", "point", "point"])
         xkind = sx or rng.choice(["none", "none", "common", "zeros"])    # ignored by polynomial fits
         noise_free = False
+        if guess is None:
+            guess = rng.random() < 0.25
+        if guess:
+            # the documented `parguess` keyword on a closed-form fit: it has no influence on the
+            # least-squares solution (a list or a tuple, see call_fit; any numbers will do)
+            t = rng.random()
+            case["parguess"] = ([1.0] * m if t < 0.3 else [0.0] * m if t < 0.4 else
+                                [v * (1 + rng.uniform(-0.3, 0.3)) + rng.uniform(-0.5, 0.5)
+                                 for v in ptrue])
+            case["guess_kind"] = rng.choice(["list", "tuple"])
+            # `degrees` may be left out for the default degree 3 (any other length of parguess is
+            # rejected without it)
+            case["degrees_kw"] = not (family == "polynomial" and d == 3 and rng.random() < 0.5)
     else:
         n = rng.randint(8, 24)
         if family == "exponential":
@@ -169,6 +234,14 @@ def gen_case(rng, family=None, noise_free=None, form=None, want_range=None, degr
         elif family == "custom:growth":
             ptrue = [round(rng.uniform(0.5, 3), 3), round(rng.uniform(0.2, 0.9), 3)]
             xs = distinct_xs(rng, n, 0.0, 3.0)
+        elif family == "custom:decay":
+            ptrue = [round(rng.uniform(0.5, 5), 3), round(rng.uniform(0.2, 1.5), 3)]
+            xs = distinct_xs(rng, n, rng.choice([0.0, 0.2, -0.5]), rng.choice([2.5, 4.0]))
+        elif family == "custom:lpeak":
+            mu = round(rng.uniform(-1, 3), 3)
+            w = round(rng.uniform(0.5, 2.0), 3)
+            ptrue = [round(rng.uniform(1, 10), 3), mu, w]
+            xs = distinct_xs(rng, n, mu - 3.0 * w, mu + 3.0 * w)
         else:
             ptrue = [round(rng.uniform(1, 5), 3), round(rng.uniform(0.3, 2.0), 3)]
             xs = distinct_xs(rng, n, -2.0, 3.0)
@@ -270,8 +343,11 @@ def param_scales(case, xs, ys):
     if m in PRESET_POLY:
         d = case["degree"]
         return [ys / xs ** (d - k) for k in range(d + 1)]
+    if m.startswith("custom:o"):
+        m = "custom:" + m[8:]
     return {"exponential": [ys, 1 / xs], "gaussian": [ys * xs, xs, xs],
             "custom:sine": [ys, 1 / xs], "custom:growth": [ys, 1 / xs],
+            "custom:decay": [ys, 1 / xs], "custom:lpeak": [ys, xs, xs],
             "custom:lorentz": [ys, 1 / xs ** 2]}[m]
 
 
@@ -289,6 +365,8 @@ def rescale(case, xs, ys):
     case["y"], case["yerr"] = mul(case["y"], ys), mul(case["yerr"], ys)
     case["xs"] = mul(case["xs"], xs)
     case["xrange"] = mul(case["xrange"], xs)
+    if "x0" in case:
+        case["x0"] = case["x0"] * xs
     case["ptrue"] = [p * f for p, f in zip(case["ptrue"], ps)]
     if case.get("parguess") is not None:
         case["parguess"] = [p * f for p, f in zip(case["parguess"], ps)]
@@ -298,15 +376,67 @@ def rescale(case, xs, ys):
     case["scale"] = [xs, ys]
     if case["noise_free"]:
         # exact data must be exact for the scaled parameters too
-        f = ref_fn(case["model"])
+        f = ref_fn(case)
         case["y"] = [f(x, *case["ptrue"]) for x in case["x"]]
+    return case
+
+
+# ---------------------------------------------------------------------------------------------
+# OFFSET data: abscissae with a large offset relative to their span and to the width of the curve
+# (a spectral line at 6562.8 with width 0.12; times since an epoch).  |x|/span = `ratio`.
+
+OFFSET_FAMILIES = ("gaussian", "custom:lpeak", "custom:sine", "custom:growth", "custom:decay",
+                   "custom:lorentz")
+
+
+def shift_x(case, X0):
+    """the same problem with every abscissa moved by X0.  Models with a position parameter
+    (Gaussian mean, peak position) get it moved; the others become the user model in (x - X0)."""
+    m = case["model"]
+    if m in ("gaussian", "custom:lpeak"):
+        for key in ("ptrue", "parguess"):
+            case[key] = list(case[key])
+            case[key][1] = case[key][1] + X0
+    elif m.startswith("custom:") and not m.startswith("custom:o"):
+        case["model"] = "custom:o" + m[7:]
+        case["x0"] = float(X0)
+    else:
+        raise ValueError("cannot shift " + m)
+    case["x"] = [v + X0 for v in case["x"]]
+    case["xs"] = [v + X0 for v in case["xs"]]
+    if case["xrange"]:
+        case["xrange"] = [v + X0 for v in case["xrange"]]
+    if case["model"] in ("gaussian", "custom:lpeak"):
+        case["pscale"] = list(case["pscale"])
+    f = ref_fn(case)
+    if case["noise_free"]:
+        case["y"] = [f(x, *case["ptrue"]) for x in case["x"]]
+    case["offset"] = float(X0)
+    return case
+
+
+def gen_offset(rng, family=None, ratio=None, units=None, **kw):
+    """a non-polynomial fit with x-uncertainties on abscissae whose offset is `ratio` times their
+    span (1e2 ... 1e5), noisy y unless asked otherwise"""
+    family = family or rng.choice(OFFSET_FAMILIES)
+    kw.setdefault("sx", rng.choice(["common", "point", "point", "zeros"]))
+    kw.setdefault("noise_free", False)
+    case = gen_case(rng, family=family, **kw)
+    span = max(case["x"]) - min(case["x"])
+    ratio = ratio or 10 ** rng.uniform(2, 5)
+    # a short decimal offset (6562, 410000, ...), either sign
+    X0 = float("%.3g" % (ratio * span)) * rng.choice([1.0, 1.0, -1.0])
+    shift_x(case, X0)
+    case["ratio"] = abs(X0) / span
+    if units is not None and (units[0] != 1.0 or units[1] != 1.0):
+        rescale(case, float(units[0]), float(units[1]))
     return case
 
 
 def model_arg(q, case):
     m = case["model"]
     if m.startswith("custom:"):
-        return CUSTOM[m[7:]]["py"](q)
+        return custom_spec(case)["py"](q)
     if case["form"] == "enum":
         return q.FitModel(m)
     return m
@@ -316,7 +446,7 @@ def driver_model(case):
     """the fields of a driver request that name the model"""
     m = case["model"]
     if m.startswith("custom:"):
-        c = CUSTOM[m[7:]]
+        c = custom_spec(case)
         return {"model": "custom", "nodes": c["nodes"], "root": c["root"], "m": c["m"]}
     return {"model": m}
 
@@ -333,8 +463,9 @@ def reset(q):
     q.clear_unit_definitions()
 
 
-def call_fit(q, case, drop_xerr=False, use_range=True):
-    """hand the data to the library in the way the case says"""
+def call_fit(q, case, drop_xerr=False, use_range=True, holder=None):
+    """hand the data to the library in the way the case says (holder: dict that receives the Plot
+    when the fit is made through one)"""
     import numpy as np
     x, y = list(case["x"]), list(case["y"])
     xerr = None if drop_xerr else case["xerr"]
@@ -342,10 +473,12 @@ def call_fit(q, case, drop_xerr=False, use_range=True):
     kw = {}
     if case.get("xrange") and use_range:
         kw["xrange"] = tuple(case["xrange"]) if len(x) % 2 else list(case["xrange"])
-    if case["model"] == "polynomial":
+    if case["model"] == "polynomial" and case.get("degrees_kw", True):
         kw["degrees"] = case["degree"]
     if case.get("parguess") is not None:
         kw["parguess"] = list(case["parguess"]) if len(x) % 3 else tuple(case["parguess"])
+        if case.get("guess_kind"):
+            kw["parguess"] = (list if case["guess_kind"] == "list" else tuple)(case["parguess"])
     model = model_arg(q, case)
     form = case["form"]
     ek = {}
@@ -355,6 +488,12 @@ def call_fit(q, case, drop_xerr=False, use_range=True):
         ek["yerr"] = yerr
     if form in ("lists", "enum"):
         return q.fit(x, y, model, **ek, **kw)
+    if form == "plot.fit":
+        import qexpy.plotting as qplt
+        fig = qplt.plot(x, y, **ek) if len(x) % 2 else qplt.plot(q.XYDataSet(x, y, **ek))
+        if holder is not None:
+            holder["fig"] = fig
+        return fig.fit(model, **kw) if len(x) % 3 else fig.fit(model=model, **kw)
     if form == "arrays":
         ek = {k: (np.array(v) if isinstance(v, list) else v) for k, v in ek.items()}
         return q.fit(np.array(x), np.array(y), model, **ek, **kw)
@@ -407,15 +546,97 @@ def call_fit(q, case, drop_xerr=False, use_range=True):
     raise ValueError(form)
 
 
+def eval_points(case):
+    """where fit_function is evaluated: the case's own points, then the smallest and the largest
+    abscissa of the data (the end points of the grid a plot of the result evaluates)"""
+    return list(case["xs"]) + [min(case["x"]), max(case["x"])]
+
+
+HIST_KINDS = ("switch", "switch", "plot", "global-mc", "reread")
+
+
+def gen_hist(rng, plot=None):
+    """what happens to the result between two rounds of evaluating fit_function:
+    ["switch", i, form, spelling]  a value returned for point i (asked as scalar / list / array) gets
+                                   the Monte Carlo method (documented: affects this value alone) and is read
+    ["plot"]                       the result is drawn (Plot.fit's own figure, or plot(result)) and saved
+    ["global-mc", i]               the global error method is Monte Carlo while point i is evaluated and read
+    ["reread", i]                  a returned value is read twice"""
+    steps = []
+    for _ in range(rng.choice([1, 1, 2, 3])):
+        k = rng.choice(HIST_KINDS)
+        if plot is False and k == "plot":
+            k = "switch"
+        if k == "switch":
+            steps.append([k, rng.randrange(6), rng.choice(["scalar", "scalar", "list", "array"]),
+                          rng.choice(["str", "enum"])])
+        elif k == "plot":
+            steps.append([k])
+        else:
+            steps.append([k, rng.randrange(6)])
+    if plot and not any(s[0] == "plot" for s in steps):
+        steps.insert(rng.randrange(len(steps) + 1), ["plot"])
+    return steps
+
+
+def run_hist(q, r, case, holder, out):
+    """the history between the two rounds of evaluations (see gen_hist)"""
+    import os
+    import numpy as np
+    pts = eval_points(case)
+    log = []
+    for st in case.get("hist") or []:
+        k = st[0]
+        if k == "switch":
+            _, i, form, spell = st
+            if form == "scalar":
+                first = r.fit_function(pts[i])
+            elif form == "list":
+                first = r.fit_function(list(pts))[i]
+            else:
+                first = r.fit_function(np.array(pts))[i]
+            first.error_method = "monte-carlo" if spell == "str" else q.ErrorMethod.MONTE_CARLO
+            try:
+                first.mc.sample_size = 50
+                log.append(["switch", float(first.value), float(first.error)])
+            except Exception as e:  # noqa: BLE001  (the Monte Carlo read itself is not C07's subject)
+                log.append(["switch", type(e).__name__])
+        elif k == "plot":
+            import matplotlib.pyplot as plt
+            import qexpy.plotting as qplt
+            fig = holder.get("fig") or qplt.plot(r)
+            fig.savefig(os.devnull, format="png")
+            plt.close("all")
+            log.append(["plot", "Plot.fit" if holder.get("fig") else "plot(result)"])
+        elif k == "global-mc":
+            q.set_error_method(q.ErrorMethod.MONTE_CARLO)
+            q.set_monte_carlo_sample_size(50)
+            try:
+                v = r.fit_function(pts[st[1]])
+                log.append(["global-mc", float(v.value), float(v.error)])
+            except Exception as e:  # noqa: BLE001
+                log.append(["global-mc", type(e).__name__])
+            q.set_error_method(q.ErrorMethod.DERIVATIVE)
+            q.set_monte_carlo_sample_size(10000)
+        elif k == "reread":
+            v = r.fit_function(pts[st[1]])
+            log.append(["reread", float(v.value), float(v.error), float(v.value), float(v.error)])
+        else:
+            raise KeyError(k)
+    out["hist_log"] = log
+
+
 def observe(q, case, drop_xerr=False, full=True, use_range=True):
     """run the real library; everything the checks look at, as plain floats"""
     import numpy as np
     reset(q)
     out = {}
+    holder = {}
     with warnings.catch_warnings():
         warnings.simplefilter("ignore")
         try:
-            r = call_fit(q, case, drop_xerr=drop_xerr, use_range=use_range)
+            np.random.seed(case.get("npseed", 20240229))
+            r = call_fit(q, case, drop_xerr=drop_xerr, use_range=use_range, holder=holder)
             ps = r.params
             m = len(ps)
             out["popt"] = [float(p.value) for p in ps]
@@ -445,17 +666,45 @@ def observe(q, case, drop_xerr=False, full=True, use_range=True):
                 out["chi2"] = float(r.chi_squared)
                 out["ndof"] = int(r.ndof)
                 out["res"] = [[float(v.value), float(v.error)] for v in r.residuals]
-                xs = case["xs"]
-                one = [r.fit_function(x) for x in xs]
-                out["fit"] = [[float(v.value), float(v.error)] for v in one]
-                lst = r.fit_function(list(xs))
-                out["fit_list"] = [[float(v.value), float(v.error)] for v in lst]
-                out["fit_list_type"] = type(lst).__name__
-                arr = r.fit_function(np.array(xs))
-                out["fit_array"] = [[float(v.value), float(v.error)] for v in arr]
-                out["fit_array_type"] = type(arr).__name__
+                xs = eval_points(case)
+
+                def evaluate(sfx):
+                    one = [r.fit_function(x) for x in xs]
+                    out["fit" + sfx] = [[float(v.value), float(v.error)] for v in one]
+                    lst = r.fit_function(list(xs))
+                    out["fit_list" + sfx] = [[float(v.value), float(v.error)] for v in lst]
+                    out["fit_list_type" + sfx] = type(lst).__name__
+                    arr = r.fit_function(np.array(xs))
+                    out["fit_array" + sfx] = [[float(v.value), float(v.error)] for v in arr]
+                    out["fit_array_type" + sfx] = type(arr).__name__
+                    # scalars of the other numeric types: numpy floats, and ints where x is one
+                    other = [r.fit_function(int(x) if float(x).is_integer() and abs(x) < 2 ** 53
+                                            else np.float64(x)) for x in xs]
+                    out["fit_npscalar" + sfx] = [[float(v.value), float(v.error)] for v in other]
+                if case.get("hist") and case.get("hist_first"):
+                    pass        # nothing evaluated before the history
+                else:
+                    evaluate("")
+                if case.get("hist"):
+                    run_hist(q, r, case, holder, out)
+                    evaluate("@after")
+                    # the rest of the result is read again as well: nothing in it may have moved
+                    out["chi2@after"] = float(r.chi_squared)
+                    out["res@after"] = [[float(v.value), float(v.error)] for v in r.residuals]
+                    out["perr@after"] = [float(p.error) for p in r.params]
+                    out["popt@after"] = [float(p.value) for p in r.params]
+                    out["regcorr@after"] = [[float(q.get_correlation(r[i], r[j])) for j in range(m)]
+                                            for i in range(m)]
+                    out["str@after"] = str(r)
+                    if case.get("hist_first"):
+                        for k in ("fit", "fit_list", "fit_list_type", "fit_array", "fit_array_type",
+                                  "fit_npscalar"):
+                            out[k] = out[k + "@after"]
         except Exception as e:  # noqa: BLE001
             out["exception"] = "{}: {}".format(type(e).__name__, e)
+    if holder:
+        import matplotlib.pyplot as plt
+        plt.close("all")
     reset(q)
     return out
 
